@@ -14,6 +14,7 @@ step = everything from one event up to the next.
   replace  os.replace(tmp, cache)                       (atomic protocol)
   lookup   src.gtf2db.find_converted_db                 (only for kind "run")
   convert  src.gtf2db.gtf2db / the stand-in builder     (the process's own conversion)
+  isdir / makedirs / mkdir   os.path.isdir / os.makedirs / os.mkdir of $HOME/.config/IsoQuant   (kind "init_dir")
 
 Active only under ABLAB_ISOQUANT_VERIF=1; nothing in the repository is touched.
 usage: c20_wrapper.py <spec.json> <read fd> <write fd>"""
@@ -82,7 +83,38 @@ def _exists(p):
     return _real_exists(p)
 
 
+# the configuration directory (kind "init_dir"): os.path.isdir(dir) and os.makedirs(dir) are synchronisation points; what os.makedirs
+# itself calls (os.path.exists / isdir of the same path) is part of that one step
+DIR = os.path.abspath(spec["dir"]) if spec.get("dir") else None
+_inside = [False]
+def _is_dir(p):
+    try:
+        return DIR is not None and isinstance(p, (str, bytes, os.PathLike)) and os.path.abspath(os.fspath(p)) == DIR
+    except Exception:
+        return False
+_real_isdir = os.path.isdir
+def _isdir(p):
+    if _is_dir(p) and not _inside[0]: sync("isdir")
+    return _real_isdir(p)
+_real_makedirs = os.makedirs
+def _makedirs(name, mode=0o777, exist_ok=False):
+    if _is_dir(name) and not _inside[0]:
+        sync("makedirs", exist_ok=bool(exist_ok))
+        _inside[0] = True
+        try:
+            return _real_makedirs(name, mode, exist_ok)
+        finally:
+            _inside[0] = False
+    return _real_makedirs(name, mode, exist_ok)
+_real_mkdir = os.mkdir
+def _mkdir(path, *a, **k):
+    if _is_dir(path) and not _inside[0]: sync("mkdir")
+    return _real_mkdir(path, *a, **k)
+
+
 def install():
+    if DIR is not None:
+        os.path.isdir = _isdir; os.makedirs = _makedirs; os.mkdir = _mkdir
     builtins.open = _open
     json.dump = _dump
     os.replace = _replace
@@ -114,6 +146,15 @@ def job_run():
     return gtf2db.convert_gtf_to_db(args)
 
 
+def job_init_dir():
+    """set_configs_directory alone: the creation of $HOME/.config/IsoQuant is what is scheduled (the cache path given is never touched)"""
+    import isoquant
+    args = argparse.Namespace()
+    install()
+    isoquant.set_configs_directory(args)
+    return os.path.dirname(args.db_config_path)
+
+
 def _touch_new(path, text):
     with _real_open(path, "w") as f: f.write(text)
 
@@ -143,7 +184,7 @@ def job_stored():
 
 def main():
     try:
-        r = job_run() if spec["kind"] == "run" else job_stored()
+        r = job_run() if spec["kind"] == "run" else job_init_dir() if spec["kind"] == "init_dir" else job_stored()
         _send(dict(exit="done", result=r))
         code = 0
     except SystemExit as e:
